@@ -15,9 +15,10 @@ for pid in ALL:
     checks.append(dict(
         property_id=pid, quick_cmd=f"./check {pid} --tier quick", thorough_cmd=f"./check {pid} --tier thorough",
         evidence_file=f"/verif/evidence/{pid}.json", replay_cmd_template=f"./check {pid} --replay {{path}}", engine="pyvc",
-        level_claimed=dict(category=P.get("level", "proof"), text=P["explanation"], design_ref=f"DESIGN.md §4 {pid}"),
+        level_claimed=dict(category=P.get("level", "proof"), text=P["explanation"], design_ref=f"DESIGN.md §0A.1 and §4 {pid}"),
         level_note="; ".join(P.get("assumptions", [])) + "; trusted: pyvc's encoding of Python/NumPy semantics (DESIGN §2.2, §2.5), z3 5.1",
-        technique=P.get("technique", "contract-based deductive verification: VCs generated from the real AST against sidecar contracts (pre/post, loop invariants, frame, exceptional postconditions), discharged by z3")))
+        technique=P.get("technique", "contract-based deductive verification: VCs generated from the real AST against sidecar contracts (pre/post, loop invariants, frame, exceptional postconditions, specification lemmas), discharged by z3"
+                        + ("; bounded stand-in (labelled, never counted as proved): run-time monitoring of the same contracts on generated inputs" if P.get("monitor_quick") else ""))))
 man = dict(
     version=1,
     setup_cmd="python3-vt -c \"import z3, sys; sys.path.insert(0,'/verif'); import pyvc.check\" && /venv/bin/python -c \"import numpy, scipy\" && z3-new --version",
@@ -28,7 +29,7 @@ man = dict(
     engines=[dict(name="pyvc", path="/verif/pyvc", serves_properties=[c["property_id"] for c in checks],
                   kind_free_text="contract-based deductive verifier for the Python/NumPy subset used by traffic-weaver: symbolic execution of the real AST (re-read from /repo/src on every run), sidecar contracts, loop invariants, lemma library proved by induction, z3 5.1 (CLI, hard timeouts)")],
     checks=checks,
-    notes="see DESIGN.md; known_findings.json lists repaired defects (fix: commits in /repo)",
+    notes="see DESIGN.md section 0A (as built); known_findings.json lists repaired defects (fix: commits in /repo) and one known finding (C05-small-exponent)",
     not_applicable=[dict(property_id=p, reason=NA.get(p, "check not built yet (work in progress in this session)")) for p in ALL if p not in props.PROPS],
 )
 json.dump(man, open('/verif/MANIFEST.json', 'w'), indent=1)
